@@ -818,8 +818,10 @@ func (l *Log) sequence(ctx context.Context) error {
 	l.currentPool = newPool()
 	l.inSequencing = p.byHash
 	l.poolMu.Unlock()
+	verifPoint(l, "rotated")
 
 	err := l.sequencePool(ctx, p)
+	verifPoint(l, "pre-clear-inseq")
 
 	// Once sequencePool returns, the entries are either in the deduplication
 	// cache or finalized with an error. In the latter case, we don't want
@@ -1076,11 +1078,13 @@ func (l *Log) sequencePool(ctx context.Context, p *pool) (err error) {
 	// to users. The only consequence of cache false negatives are duplicated
 	// leaves anyway. In fact, an error might cause the clients to resumbit,
 	// producing more cache false negatives and duplicates.
+	verifPoint(l, "pre-cacheput")
 	if err := l.cachePut(sequencedLeaves); err != nil {
 		l.c.Log.ErrorContext(ctx, "cache put failed",
 			"tree_size", tree.N, "entries", len(p.pendingLeaves), "err", err)
 		l.m.CachePutErrors.Inc()
 	}
+	verifPoint(l, "post-cacheput")
 
 	for _, t := range edgeTiles {
 		l.c.Log.DebugContext(ctx, "edge tile", "tile", t)
